@@ -287,4 +287,11 @@ rewrite (nth_map (0, 0)) ?size_zip ?leq_min ?lx // nth_zip_cond size_zip leq_min
 by case: dev; rewrite ?addr0.
 Qed.
 
+(* every simulated period satisfies the measurement equations *)
+Theorem measurement_holds_along_path (xis : seq 'cV[F]_nb) (ws : seq 'cV[F]_nw) (f : 'cV[F]_nf) t :
+  (t < size xis)%N -> (t < size ws)%N ->
+  let y_t := nth 0 (@simulate_measurement O nb ny nw false (ms_Z ms) (ms_H ms) (ms_D ms) xis ws) t in
+  Fm *m y_t + Gm *m col_mx f (nth 0 xis t) + Hc + Jm *m nth 0 ws t = 0.
+Proof. by move=> lx lw; rewrite /= nth_simulate_measurement //; exact: measurement_block. Qed.
+
 End Measurement.
